@@ -31,6 +31,7 @@ Variable waits : E -> list kp -> bool.
 Variable eff : bid -> list kp -> E -> E * option res.
 Variable is_cprh : bid -> bool.
 Variable cpr_lookup : E -> option bid.
+Variable feeds : bid -> list kp -> E -> list kp.
 Variable restart : E -> E.
 Variable pfeed : str -> PS -> PS * list kp.
 Variable pflush : PS -> PS * list kp.
@@ -38,22 +39,24 @@ Variable res_eof : res.
 
 Notation core := (core E bid res).
 Notation sys := (sys E bid res PS).
-Notation call := (call eff is_cprh).
+Notation call := (call eff is_cprh feeds).
 Notation scan := (@scan E bid res lookup_scan).
-Notation loop := (loop lookup lookup_scan waits eff is_cprh).
-Notation send := (send lookup lookup_scan waits eff is_cprh).
-Notation handle_cpr := (handle_cpr eff is_cprh cpr_lookup).
-Notation deliver := (deliver lookup lookup_scan waits eff is_cprh cpr_lookup).
-Notation process_q := (process_q lookup lookup_scan waits eff is_cprh cpr_lookup).
-Notation pk := (@pk E bid res PS lookup lookup_scan waits eff is_cprh cpr_lookup).
-Notation feed_keys := (@feed_keys E bid res PS lookup lookup_scan waits eff is_cprh cpr_lookup).
-Notation do_read := (@do_read E bid res PS lookup lookup_scan waits eff is_cprh cpr_lookup pfeed res_eof).
-Notation step := (@step E bid res PS lookup lookup_scan waits eff is_cprh cpr_lookup restart pfeed pflush res_eof).
-Notation run := (@run E bid res PS lookup lookup_scan waits eff is_cprh cpr_lookup restart pfeed pflush res_eof).
+Notation loop := (loop lookup lookup_scan waits eff is_cprh feeds).
+Notation send := (send lookup lookup_scan waits eff is_cprh feeds).
+Notation handle_cpr := (handle_cpr eff is_cprh cpr_lookup feeds).
+Notation deliver := (deliver lookup lookup_scan waits eff is_cprh cpr_lookup feeds).
+Notation drain := (drain lookup lookup_scan waits eff is_cprh cpr_lookup feeds).
+Notation deliver_d := (deliver_d lookup lookup_scan waits eff is_cprh cpr_lookup feeds).
+Notation process_q := (process_q lookup lookup_scan waits eff is_cprh cpr_lookup feeds).
+Notation pk := (@pk E bid res PS lookup lookup_scan waits eff is_cprh cpr_lookup feeds).
+Notation feed_keys := (@feed_keys E bid res PS lookup lookup_scan waits eff is_cprh cpr_lookup feeds).
+Notation do_read := (@do_read E bid res PS lookup lookup_scan waits eff is_cprh cpr_lookup feeds pfeed res_eof).
+Notation step := (@step E bid res PS lookup lookup_scan waits eff is_cprh cpr_lookup feeds restart pfeed pflush res_eof).
+Notation run := (@run E bid res PS lookup lookup_scan waits eff is_cprh cpr_lookup feeds restart pfeed pflush res_eof).
 
 (* the binding a report is delivered to neither ends the prompt nor edits *)
 Definition cpr_silent : Prop :=
-  forall e b, cpr_lookup e = Some b -> forall ks e', eff b ks e' = (e', None).
+  forall e b, cpr_lookup e = Some b -> forall ks e', eff b ks e' = (e', None) /\ feeds b ks e' = [].
 
 Hypothesis Hsil : cpr_silent.
 
@@ -61,9 +64,9 @@ Hypothesis Hsil : cpr_silent.
 
 Lemma call_from_run b ks (c : core) : cph c = CRun res ->
   (cph (call b ks c) = CRun res \/ exists x, cph (call b ks c) = CDone x) /\
-  rlog (call b ks c) = EInvoke false b ks :: rlog c /\ kbuf (call b ks c) = kbuf c /\ pb (call b ks c) = pb c.
+  rlog (call b ks c) = EInvoke false b ks :: rlog c /\ kbuf (call b ks c) = kbuf c.
 Proof.
-  intros PH. unfold C17_Typeahead.call, late; cbn [cph rlog kbuf pb]. rewrite PH.
+  intros PH. unfold C17_Typeahead.call, late; cbn [cph rlog kbuf]. rewrite PH.
   split; [|auto]. destruct (snd (eff b ks (est c))); [right; eexists; reflexivity|left; reflexivity].
 Qed.
 
@@ -136,7 +139,8 @@ Lemma handle_cpr_eq k (c : core) :
   (rlog (handle_cpr k c) = rlog c \/ exists b, cpr_lookup (est c) = Some b /\ rlog (handle_cpr k c) = EInvoke (late c) b [k] :: rlog c).
 Proof.
   unfold C17_Typeahead.handle_cpr. destruct (cpr_lookup (est c)) as [b|] eqn:L; [|auto 6].
-  unfold C17_Typeahead.call; cbn [est kbuf cph pb rlog]. rewrite (Hsil (est c) b L [k] (est c)). cbn [fst snd].
+  destruct (Hsil (est c) b L [k] (est c)) as (HE & HF).
+  unfold C17_Typeahead.call; cbn [est kbuf cph pb rlog]. rewrite HE, HF. cbn [fst snd app].
   repeat split; auto. right. exists b. auto.
 Qed.
 
@@ -153,6 +157,30 @@ Proof.
   intros PH J. destruct it as [k|]; cbn [C17_Typeahead.deliver]; [|apply send_Jc_run; assumption].
   destruct (is_cpr k) eqn:CK; [apply handle_cpr_Jc0; assumption|apply send_Jc_run; assumption].
 Qed.
+
+Lemma Jc0_same (c c' : core) : cph c' = cph c -> kbuf c' = kbuf c -> rlog c' = rlog c -> Jc0 c -> Jc0 c'.
+Proof. intros H1 H2 H3. unfold Jc0, late. rewrite H1, H2, H3. auto. Qed.
+
+Lemma drain_Jc0 l : forall c : core, cph c = CRun res -> Jc0 c -> Jc0 (drain l c).
+Proof.
+  induction l as [|k l IH]; intros c PH J; cbn [C17_Typeahead.drain]; [exact J|].
+  pose proof (deliver_Jc0_run (IKey k) c PH J) as J'.
+  destruct (cph (deliver (IKey k) c)) eqn:PC.
+  - destruct (pb (deliver (IKey k) c)); [apply IH; assumption|].
+    eapply Jc0_same; [| | |exact J']; reflexivity.
+  - eapply Jc0_same; [| | |exact J']; reflexivity.
+  - eapply Jc0_same; [| | |exact J']; reflexivity.
+Qed.
+
+Lemma deliver_d_Jc0_run it (c : core) : cph c = CRun res -> Jc0 c -> Jc0 (deliver_d it c).
+Proof.
+  intros PH J. pose proof (deliver_Jc0_run it c PH J) as J'. unfold C17_Typeahead.deliver_d.
+  destruct (cph (deliver it c)) eqn:PC; [|exact J'|exact J'].
+  apply drain_Jc0; [exact PC|]. eapply Jc0_same; [| | |exact J']; reflexivity.
+Qed.
+
+Lemma Jc0_pop it (c : core) : Jc0 c -> Jc0 (pop it c).
+Proof. destruct it; intros H; exact H. Qed.
 
 Lemma nf_map ks : Forall nf (map IKey ks).
 Proof. induction ks; constructor; auto. unfold nf; discriminate. Qed.
@@ -175,20 +203,23 @@ Proof.
     - destruct q as [|[k|] q2]; [exact I|exact I|]. inversion Fq as [|? ? X _]. exfalso. apply X. reflexivity. }
   destruct J as (J0 & P0).
   destruct (cph c) eqn:PH.
-  - pose proof (deliver_Jc0_run it c PH J0) as J'.
-    destruct (IHq (clear_pb (deliver it c)) (Jc_clear _ J')) as (A & B & C). cbn [fst snd].
+  - assert (PH0 : cph (pop it c) = CRun res) by (destruct it; exact PH).
+    pose proof (deliver_d_Jc0_run it (pop it c) PH0 (Jc0_pop it c J0)) as J'.
+    destruct (IHq (clear_pb (deliver_d it (pop it c))) (Jc_clear _ J')) as (A & B & C). cbn [fst snd].
     split; [exact A|]. split.
-    + intros X. pose proof (@process_q_run_back E bid res lookup lookup_scan waits eff is_cprh cpr_lookup q _ X) as Y.
+    + intros X. pose proof (@process_q_run_back E bid res lookup lookup_scan waits eff is_cprh cpr_lookup feeds q _ X) as Y.
       cbn [cph clear_pb] in Y.
-      rewrite (@deliver_pb_run E bid res lookup lookup_scan waits eff is_cprh cpr_lookup it c Y), P0, (B X). reflexivity.
+      rewrite (@deliver_d_pb_run E bid res lookup lookup_scan waits eff is_cprh cpr_lookup feeds it (pop it c) Y), (B X). reflexivity.
     + apply Forall_app; split; [apply nf_map|exact C].
   - assert (NR : not_run c) by (unfold not_run; congruence).
     destruct it as [k|]; [|discriminate HF]. cbn [item_is_cpr].
     destruct (is_cpr k) eqn:CK.
-    + apply IHq. cbn [C17_Typeahead.deliver]. rewrite CK. split; [apply handle_cpr_Jc0; assumption|].
-      destruct (handle_cpr_eq k c) as (_ & _ & _ & E4 & _). rewrite E4. exact P0.
+    + cbn [C17_Typeahead.deliver C17_Typeahead.pop fst snd]. rewrite CK.
+      destruct (handle_cpr_eq k (add_pop k c)) as (_ & _ & _ & E4 & _). cbn [pb add_pop] in E4.
+      rewrite E4, P0. cbn [map app].
+      apply IHq. apply Jc_clear. apply handle_cpr_Jc0; [exact CK|exact J0].
     + destruct (IHq c (conj J0 P0)) as (A & B & C). cbn [fst snd].
-      destruct (@process_q_done E bid res lookup lookup_scan waits eff is_cprh cpr_lookup q c NR) as (_ & _ & NR').
+      pose proof (@process_q_not_run E bid res lookup lookup_scan waits eff is_cprh cpr_lookup feeds q c NR) as NR'.
       split; [exact A|]. split; [intros X; exfalso; exact (NR' X)|]. constructor; [inversion F; assumption|exact C].
   - destruct J0 as (NB & _). contradiction.
 Qed.
@@ -290,4 +321,4 @@ Proof.
 Qed.
 
 End P.
-Arguments cpr_silent {E bid res} eff cpr_lookup.
+Arguments cpr_silent {E bid res} eff cpr_lookup feeds.
